@@ -3,6 +3,7 @@ package main
 import (
 	"encoding/json"
 	"fmt"
+	"strings"
 	"math/big"
 	"os"
 	"time"
@@ -98,6 +99,8 @@ type World struct {
 	PendingHashes int
 	JunkVotes     int
 	Tainted       bool
+	ProbeTxs      [][]byte
+	TraceH        []byte
 	Seen      map[string]bool
 	InitReq   *abci.RequestInitChain
 	Trace     bool
@@ -111,6 +114,22 @@ func (w *World) note(kind, msg string) {
 }
 
 func (w *World) fault(kind string) { w.Stats.Faults[kind]++ }
+
+// tr folds an event into the run's trace hash (determinism self-test); it never draws or reads a clock.
+func (w *World) tr(parts ...string) {
+	w.TraceH = sha(w.TraceH, []byte(strings.Join(parts, "|")))
+	if traceFile != nil {
+		fmt.Fprintln(traceFile, strings.Join(parts, "|"))
+	}
+}
+
+var traceFile = func() *os.File {
+	if p := os.Getenv("VERIF_TRACEFILE"); p != "" {
+		f, _ := os.Create(p)
+		return f
+	}
+	return nil
+}()
 func (w *World) probe(kind string) { w.Stats.Probes[kind]++ }
 
 func (w *World) violate(prop, oracle, shape, format string, args ...any) {
